@@ -3,9 +3,9 @@
 What is demanded (exactly the statement in properties.jsonl, nothing more):
 
 (monotone)  DescentMinimizer.__call__ hands every accepted iterate to controller.check().  A recording
-            controller (harness object wrapping a genuine NIFTy controller) stores the positions it is
-            shown; the oracle re-evaluates f at these positions with NumPy and requires the sequence
-            start, check_1, check_2, ..., returned energy to be non-increasing.  f is a deterministic
+            controller (harness object wrapping a genuine NIFTy controller) stores the positions passed to
+            check(); the oracle re-evaluates f at these positions with NumPy and requires the sequence
+            f(x0), check_1, check_2, ..., returned energy to be non-increasing.  f is a deterministic
             NumPy function and oracle and minimiser evaluate it at bit-identical positions, so NO
             round-off slack is needed or granted.  The returned status must be CONVERGED or ERROR; an
             exception escaping from the minimiser is neither (the runner reports it as a crash).
@@ -259,14 +259,13 @@ class RecordingController(ift.IterationController):
     def __init__(self, inner):
         super().__init__()
         self.inner = inner
-        self.shown = []          # flat positions, [0] from start(), the rest from check()
+        self.checked = []        # flat positions of the energies passed to check(), in order
 
     def start(self, energy):
-        self.shown.append(np.array(nx.flat(energy.position), dtype=float))
         return self.inner.start(energy)
 
     def check(self, energy):
-        self.shown.append(np.array(nx.flat(energy.position), dtype=float))
+        self.checked.append(np.array(nx.flat(energy.position), dtype=float))
         return self.inner.check(energy)
 
 
@@ -382,9 +381,8 @@ def check_run(rec):
     efin, status = res
     require(isinstance(status, (int, np.integer)) and not isinstance(status, bool) and status in (CONVERGED, ERROR),
             "status_not_converged_or_error", repr(status))
-    # --- monotone: everything the controller was shown, then the returned energy
-    require(len(ctrl.shown) >= 1 and np.array_equal(ctrl.shown[0], x0), "start_not_shown", "")
-    vals = [fn.f(x) for x in ctrl.shown]
+    # --- monotone: start energy, everything passed to controller.check, then the returned energy
+    vals = [fn.f(x0)] + [fn.f(x) for x in ctrl.checked]
     for k in range(1, len(vals)):
         require(vals[k] <= vals[k - 1], "accepted_step_increases_energy",
                 f"check #{k}: {vals[k]!r} > {vals[k - 1]!r} (diff {vals[k] - vals[k - 1]:.3e})")
@@ -669,21 +667,21 @@ _RUN_RULE = ("non-trivial = the controller accepted >= 3 steps and (unless the m
              "steps>memory, nonconvex, ls_failed, c2<=c1, status_*")
 
 SUBS = [
-    Sub(name="run_steepest_descent", check=check_run, strategy=run_recipes("sd"), quick=480, thorough=20000,
+    Sub(name="run_steepest_descent", check=check_run, strategy=run_recipes("sd"), quick=640, thorough=20000,
         shards=2, rule=_RUN_RULE),
-    Sub(name="run_relaxed_newton", check=check_run, strategy=run_recipes("rn"), quick=480, thorough=20000,
+    Sub(name="run_relaxed_newton", check=check_run, strategy=run_recipes("rn"), quick=640, thorough=20000,
         shards=2, rule=_RUN_RULE),
-    Sub(name="run_newton_cg", check=check_run, strategy=run_recipes("ncg"), quick=480, thorough=20000,
+    Sub(name="run_newton_cg", check=check_run, strategy=run_recipes("ncg"), quick=640, thorough=20000,
         shards=2, rule=_RUN_RULE),
-    Sub(name="run_l_bfgs", check=check_run, strategy=run_recipes("lbfgs"), quick=480, thorough=20000,
+    Sub(name="run_l_bfgs", check=check_run, strategy=run_recipes("lbfgs"), quick=640, thorough=20000,
         shards=2, rule=_RUN_RULE),
-    Sub(name="run_vl_bfgs", check=check_run, strategy=run_recipes("vlbfgs"), quick=480, thorough=20000,
+    Sub(name="run_vl_bfgs", check=check_run, strategy=run_recipes("vlbfgs"), quick=640, thorough=20000,
         shards=2, rule=_RUN_RULE),
-    Sub(name="line_search_wolfe", check=check_line_search, strategy=ls_recipes, quick=3000, thorough=120000,
-        shards=3, rule="non-trivial = success reported after more than one trial step (zoom phase entered or the "
+    Sub(name="line_search_wolfe", check=check_line_search, strategy=ls_recipes, quick=4000, thorough=120000,
+        shards=2, rule="non-trivial = success reported after more than one trial step (zoom phase entered or the "
                        "bracketing phase enlarged/backtracked the step); classes: zoom_phase, c2<=c1, "
                        "with_f_k_minus_1, not_a_descent_direction"),
-    Sub(name="lbfgs_equivalence", check=check_equivalence, strategy=eq_recipes, quick=3000, thorough=120000,
-        shards=3, rule="non-trivial = the history fed to both minimisers is longer than max_history_length "
+    Sub(name="lbfgs_equivalence", check=check_equivalence, strategy=eq_recipes, quick=3200, thorough=120000,
+        shards=4, rule="non-trivial = the history fed to both minimisers is longer than max_history_length "
                        "(circular buffers wrap around); classes: history>memory, wrapped_twice, reset, hist1..5"),
 ]
